@@ -175,6 +175,81 @@ def foreach_dist_case(job):
     return {"cnt": cnt, "viol": viol}
 
 
+def changing_weights_case(job):
+    """weights given by non-random fields that the user changes between calls: the exact distribution of the
+    judged call follows the weights of that call, whatever the earlier calls on the same object used"""
+    entries, history = job          # history: list of weight vectors; the last one is judged
+    cnt = {"executions": 0, "transitions": 0, "states": 0, "nontrivial": 1, "capped": 0, "exact_checked": 0}
+    viol = []
+    n = len(entries)
+
+    @vsc.randobj
+    class DW(object):
+        def __init__(self):
+            self.a = vsc.rand_bit_t(3)
+            self.w0 = vsc.bit_t(4)
+            self.w1 = vsc.bit_t(4)
+            self.w2 = vsc.bit_t(4)
+
+        @vsc.constraint
+        def cd(self):
+            ws = [self.w0, self.w1, self.w2]
+            vsc.dist(self.a, [vsc.weight(tuple(e) if isinstance(e, list) else e, ws[i]) for i, e in enumerate(entries)])
+
+    def run(s):
+        o = DW()
+        for k, wv in enumerate(history):
+            for i in range(n):
+                setattr(o, "w%d" % i, wv[i])
+            o.set_randstate(SRandState(s if k == len(history) - 1 else Script([])))
+            out = common.outcome(o.randomize)
+            if out[0] != "ok" and k < len(history) - 1:
+                return ("early",) + tuple(out), None
+        return out[0], int(o.a)
+    st = {}
+    dist = {}
+    for x in explore(run, bound=None, cap=20000, state=st):
+        cnt["executions"] += 1
+        cnt["transitions"] += len(x.trace) + 1
+        kind, v = x.obs
+        if kind != "ok":
+            viol.append({"subcheck": "dist_made_it_fatal", "case": {"changing": True, "entries": entries, "history": history},
+                         "observed": kind, "expected": "returns", "what": "weights %r from non-random fields: call ended with %r" % (history, kind)})
+            break
+        dist[v] = dist.get(v, Fraction(0)) + x.prob
+    if st.get("capped") or viol:
+        cnt["capped"] = 1 if st.get("capped") else 0
+        return {"cnt": cnt, "viol": viol}
+    exp = dist_reference(entries, list(history[-1]))
+    cnt["exact_checked"] = 1
+    cnt["states"] = len(dist)
+    if dist != exp:
+        viol.append({"subcheck": "wrong_probability", "case": {"changing": True, "entries": entries, "history": history},
+                     "observed": {str(k): str(v) for k, v in dist.items()}, "expected": {str(k): str(v) for k, v in exp.items()},
+                     "what": "dist %r with weights from non-random fields, weight history %r: exact distribution of the last call %s, "
+                             "its own weights give %s" % (entries, history, {k: str(v) for k, v in sorted(dist.items())},
+                                                           {k: str(v) for k, v in sorted(exp.items())})})
+    return {"cnt": cnt, "viol": viol}
+
+
+def changing_jobs(tier):
+    jobs = []
+    ent = [([1, 6], 2), ([2, [4, 5], 7], 3)]
+    for entries, n in ent:
+        vecs = [(1, 3, 2), (3, 1, 1), (0, 2, 5), (2, 0, 1)]
+        vecs = [v[:n] for v in vecs]
+        for a in vecs:
+            if sum(a) == 0:
+                continue
+            jobs.append((entries, [a]))
+            for b in vecs:
+                if b != a and sum(b):
+                    jobs.append((entries, [b, a]))
+                    if tier != 'quick':
+                        jobs.append((entries, [b, b, a]))
+    return jobs
+
+
 def foreach_jobs(tier):
     jobs = []
     for entries, weights in [([1, [4, 6]], [1, 2]), ([[0, 1], [5, 7]], [2, 1]), ([2, [3, 4], 7], [1, 1, 0]), ([[2, 5]], [3]),
@@ -350,6 +425,21 @@ def run(res, only=None):
             for v in r["viol"]:
                 v["finding"] = classify(v)
                 res.violation(v)
+    if only in (None, 'changing'):
+        jobs = changing_jobs(tier)
+        out = common.pmap(changing_weights_case, jobs, chunk=1)
+        for j, r in common.good(jobs, out, res):
+            cnt = r["cnt"]
+            res.add("traces_validated_against_impl", cnt["executions"])
+            res.add("transitions", cnt["transitions"])
+            res.add("states", cnt["states"])
+            res.add("evaluations", cnt["executions"])
+            nontriv += 1
+            res.subcount("dist", "changing_weight_histories")
+            res.subcount("dist", "capped", cnt["capped"])
+            for v in r["viol"]:
+                v["finding"] = classify(v)
+                res.violation(v)
     if only in (None, 'select'):
         jobs = common.rotate(select_jobs(tier), res.seed)
         out = common.pmap(select_job, jobs)
@@ -377,6 +467,10 @@ def replay(rec):
     if rec["subcheck"] == "select_probability":
         r = select_job((c["kind"], tuple(c["weights"])))
         return (not r["viol"]), (r["viol"][0]["what"] if r["viol"] else "distribution matches")
+    if c.get("changing"):
+        r = changing_weights_case((c["entries"], [tuple(h) for h in c["history"]]))
+        bad = [v for v in r["viol"] if v["subcheck"] == rec["subcheck"]]
+        return (not bad), (bad[0]["what"] if bad else "distribution matches the weights")
     if c.get("foreach"):
         r = foreach_dist_case((c["entries"], c["weights"], c["size"]))
         bad = [v for v in r["viol"] if v["subcheck"] == rec["subcheck"]]
